@@ -201,9 +201,117 @@ def to_cart_chain(tree):
     return "\n".join(parts)
 
 
+# ---------------------------------------------------------------- the date arithmetic at the head of propagate()
+
+ORBIT_PY = os.path.join(REPO, "beyond", "orbits", "orbit.py")
+TD_TEST = "type(date) is timedelta"
+
+
+class DateTr:
+    """Typed translation of the date arithmetic of `Kepler.propagate` / `J2.propagate` into the C03 date model
+    (Model/Date.lean).  Types: 'date' (a `Date`: instant on the reference scale + own scale label), 'td' (a `timedelta`, whole
+    microseconds), 'sec' (float seconds).  Only operations whose meaning is a function of the INSTANTS are accepted:
+    `Date - Date` (`Date.__sub__`: difference of the reference-scale datetimes), `Date + timedelta`, sums / differences /
+    negation of timedeltas and of seconds, `timedelta.total_seconds()`.  Anything else — in particular the own-scale clock
+    fields `date.d`, `date.s`, `date.datetime`, `date.mjd`, `date.jd` — is refused: the run is reported as broken and the
+    oracle is widened."""
+
+    def __init__(self, names):
+        self.names = dict(names)      # python source text -> (lean text, type)
+
+    def expr(self, e):
+        key = ast.unparse(e)
+        if key in self.names:
+            return self.names[key]
+        if isinstance(e, ast.BinOp) and isinstance(e.op, (ast.Sub, ast.Add)):
+            (l, tl), (r, tr) = self.expr(e.left), self.expr(e.right)
+            sub = isinstance(e.op, ast.Sub)
+            if sub and (tl, tr) == ("date", "date"):
+                return f"(Date.subDate {l} {r})", "td"
+            if (tl, tr) == ("td", "td"):
+                return f"({l} {'-' if sub else '+'} {r})", "td"
+            if (tl, tr) == ("sec", "sec"):
+                return f"({l} {'-' if sub else '+'} {r})", "sec"
+            if (tl, tr) == ("date", "td"):
+                return (f"(Date.subTd cfg env {l} {r})" if sub else f"(Date.add cfg env {l} {r})"), "xdate"
+            raise py2lean.Untranslatable(f"date arithmetic `{key}`: {tl} {'-' if sub else '+'} {tr} is not a function of the instants")
+        if isinstance(e, ast.UnaryOp) and isinstance(e.op, ast.USub):
+            v, t = self.expr(e.operand)
+            if t in ("td", "sec"):
+                return f"(-{v})", t
+        if isinstance(e, ast.Call) and isinstance(e.func, ast.Attribute) and e.func.attr == "total_seconds" and not e.args and not e.keywords:
+            v, t = self.expr(e.func.value)
+            if t == "td":
+                return f"(tdTotalSeconds {v})", "sec"
+        raise py2lean.Untranslatable(f"date arithmetic `{key}` is not understood (the span must come from the Date difference, e.g. "
+                                     "`(date - self.orbit.date).total_seconds()`: the clock fields of a Date are readings in its OWN scale)")
+
+
+def _stores(fn, name):
+    return [n for n in ast.walk(fn) if isinstance(n, ast.Name) and n.id == name and isinstance(n.ctx, ast.Store)]
+
+
+def date_head(path, qualname, prefix):
+    """`delta_t` and the target date of `<qualname>` as Lean definitions `<prefix>DeltaT`, `<prefix>TdTarget`; checks that
+    * the argument `date` is rebound only by `if type(date) is timedelta: date = <Date + timedelta>`,
+    * `delta_t` is assigned once, from date arithmetic that `DateTr` understands,
+    * the result is stamped with the requested date (`new.date = date`, once)."""
+    fn = py2lean.find_function(ast.parse(open(path).read()), qualname)
+    if [a.arg for a in fn.args.args] != ["self", "date"] or fn.args.vararg or fn.args.kwarg or fn.args.kwonlyargs:
+        raise py2lean.Untranslatable(f"{qualname}: signature is not (self, date)")
+    stmts = [st for st in fn.body if not (isinstance(st, ast.Expr) and isinstance(st.value, ast.Constant))]
+    td_if = [st for st in stmts if isinstance(st, ast.If) and ast.unparse(st.test) == TD_TEST]
+    if len(td_if) != 1 or stmts[0] is not td_if[0] or td_if[0].orelse or len(td_if[0].body) != 1:
+        raise py2lean.Untranslatable(f"{qualname}: does not start with `if {TD_TEST}: date = …`")
+    asg = td_if[0].body[0]
+    if not (isinstance(asg, ast.Assign) and len(asg.targets) == 1 and isinstance(asg.targets[0], ast.Name) and asg.targets[0].id == "date"):
+        raise py2lean.Untranslatable(f"{qualname}: the timedelta branch does not rebind `date`")
+    target, t = DateTr({"self.orbit.date": ("epoch", "date"), "date": ("td", "td")}).expr(asg.value)
+    if t != "xdate":
+        raise py2lean.Untranslatable(f"{qualname}: the timedelta branch does not compute a Date")
+    if len(_stores(fn, "date")) != 1:
+        raise py2lean.Untranslatable(f"{qualname}: the argument `date` is rebound outside the timedelta branch")
+    dts = [st for st in stmts if isinstance(st, ast.Assign) and len(st.targets) == 1 and isinstance(st.targets[0], ast.Name) and st.targets[0].id == "delta_t"]
+    if len(dts) != 1 or len(_stores(fn, "delta_t")) != 1:
+        raise py2lean.Untranslatable(f"{qualname}: `delta_t` is not assigned exactly once, at the top level")
+    span, t = DateTr({"self.orbit.date": ("epoch", "date"), "date": ("date", "date")}).expr(dts[0].value)
+    if t != "sec":
+        raise py2lean.Untranslatable(f"{qualname}: `delta_t` is not a number of seconds")
+    stamps = [n for n in ast.walk(fn) if isinstance(n, (ast.Assign, ast.AugAssign, ast.AnnAssign))
+              for tg in (n.targets if isinstance(n, ast.Assign) else [n.target]) if isinstance(tg, ast.Attribute) and tg.attr == "date"]
+    if len(stamps) != 1 or not isinstance(stamps[0], ast.Assign) or ast.unparse(stamps[0].value) != "date" or ast.unparse(stamps[0].targets[0]) != "new.date":
+        raise py2lean.Untranslatable(f"{qualname}: the result is not stamped with the requested date (`new.date = date`, once)")
+    return (f"/-- `{qualname}`: `delta_t = {ast.unparse(dts[0].value)}` (dates of the C03 model: any pair of scales) -/\n"
+            f"def {prefix}DeltaT (date epoch : Date.Date) : R :=\n  {span}\n\n"
+            f"/-- `{qualname}`: `if {TD_TEST}: date = {ast.unparse(asg.value)}` (the timedelta in whole µs) -/\n"
+            f"def {prefix}TdTarget (cfg : Date.Cfg) (env : Date.Env) (epoch : Date.Date) (td : Int) : Except Date.Err Date.Date :=\n  {target}\n")
+
+
+def orbit_propagate_shape():
+    """`Orbit.propagate(date)` hands its argument to the propagator unchanged"""
+    fn = py2lean.find_function(ast.parse(open(ORBIT_PY).read()), "Orbit.propagate")
+    stmts = [st for st in fn.body if not (isinstance(st, ast.Expr) and isinstance(st.value, ast.Constant))]
+    if [a.arg for a in fn.args.args] != ["self", "date"] or _stores(fn, "date") or not stmts or ast.unparse(stmts[-1]) != "return self.propagator.propagate(date)":
+        raise py2lean.Untranslatable("Orbit.propagate no longer ends with `return self.propagator.propagate(date)` on the unmodified argument")
+
+
+def write_generated(name, body, src, plain_imports):
+    """py2lean.instantiate with number-type independent imports (verbatim, no F / R suffix)"""
+    changed = []
+    imp = "".join(f"import BeyondVerif.{m}\n" for m in plain_imports)
+    for suffix, head, num in (("F", py2lean.HEADER_F, "import BeyondVerif.NumFloat\n"), ("R", py2lean.HEADER_R, "import BeyondVerif.NumReal\n")):
+        text = head.format(src=src).replace(num, num + imp) + body + f"\nend BeyondVerif.{suffix}\n"
+        if core.write_if_changed(os.path.join(core.LEAN, "BeyondVerif", "Generated", name + suffix + ".lean"), text):
+            changed.append(f"Generated/{name}{suffix}.lean")
+    return changed
+
+
 def extract(ctx):
     from beyond import constants as K
-    ch0 = []
+    from harness.props import C03
+    # the date model (scale graph, `_scale_*` methods, IERS tables, TDB formula) is C03's: regenerated here too, the span of a
+    # propagation is computed by it
+    ch0 = list(C03.extract(ctx) or [])
     consts = {"self.orbit.infos.n": "(meanMotion mu a)", "self.orbit[5]": "M", "Earth.r": "earthR", "Earth.J2": "earthJ2", "Earth.mu": "earthMu"}
     body = "/-- constants of beyond/constants.py (live module values) -/\n"
     body += f"def gravG : R := {_lit(K.G)}\n"
@@ -225,7 +333,13 @@ def extract(ctx):
     body += "/-- leo.sso(a=a, e=e): the cosine of the returned inclination -/\n"
     body += py2lean.translate_return(LEO_PY, "sso", ["a", "e"], "ssoCosI", consts={"ω_e": "ssoOmegaE", "cst": "ssoCst"}, select=_sso_select) + "\n"
     body += to_cart_chain(ast.parse(open(FORMS_PY).read())) + "\n"
-    ch = py2lean.instantiate(core.LEAN, "Propag", body, "beyond/propagators/kepler.py, j2.py, orbits/statevector.py (Infos.n), constants.py, utils/leo.py (sso)")
+    # delta_t and the target date, from the head of both propagate() methods
+    orbit_propagate_shape()
+    body += "/-- `timedelta.total_seconds()` (the timedelta in whole microseconds) -/\ndef tdTotalSeconds (us : Int) : R := ofInt us / 1000000\n\n"
+    body += date_head(KEPLER_PY, "Kepler.propagate", "kepler") + "\n"
+    body += date_head(J2_PY, "J2.propagate", "j2") + "\n"
+    ch = write_generated("Propag", body, "beyond/propagators/kepler.py, j2.py, orbits/statevector.py (Infos.n), constants.py, utils/leo.py (sso)",
+                         ["Model.Date"])
     ch += instantiate.main()
     return ch0 + ch
 
